@@ -108,10 +108,12 @@ int main() {
     }
     (void)maxlen;
 
+    FILE *save = getenv("VH_SAVE_CORPUS") ? fopen(getenv("VH_SAVE_CORPUS"), "wb") : nullptr;
     bool failed_once = false;
     bool ok = rc::check(vh_name(), [&]() {
         Bytes v = *gen;
         note_current(v);
+        if (save && !failed_once) { uint32_t n = (uint32_t)v.size(); fwrite(&n, 4, 1, save); fwrite(v.data(), 1, v.size(), save); }
         if (failed_once) vh_set_quiet(1);  // shrinking: keep the counters of the search itself
         int r = vh_run(v.data(), v.size());
         if (r != 0) {
@@ -126,6 +128,7 @@ int main() {
             RC_FAIL(std::string(vh_last_sig()) + ": " + vh_last_detail());
         }
     });
+    if (save) fclose(save);
     vh_dump_stats(stats);
     return ok ? 0 : 1;
 }
